@@ -187,6 +187,9 @@ pub fn draw_plan(r: &mut Rng, gp: &GenParams, present_defs: &[usize], defs: &[De
         return plan;
     }
     let n = present_defs.len();
+    if n > 0 && r.chance(gp.p_fail / 4, 1000) {
+        plan.fail_validated_eph = Some(*r.pick(&[Leave::Garbage, Leave::Untouched, Leave::Removed]));
+    }
     if n > 0 && r.chance(gp.p_fail, 1000) {
         let k = 1 + r.below(2.min(n));
         let by_ordinal = r.chance(1, 2);
@@ -252,13 +255,23 @@ pub fn generate(seed: u64, gp: &GenParams) -> Scenario {
     // shape: 0 = random dag, 1 = chain-like (deep, Ephemeral-heavy), 2 = layered
     let shape = {
         let mut rs = root.fork("shape");
-        match rs.below(10) {
-            0..=5 => 0,
-            6 | 7 => 1,
-            _ => 2,
+        match rs.below(20) {
+            0..=9 => 0,
+            10..=13 => 1,
+            14..=16 => 2,
+            _ => 3,
         }
     };
-    let n_defs = if shape == 0 { 1 + r.below(gp.max_jobs) } else { 3 + r.below(gp.max_jobs.saturating_sub(2).max(1)) };
+    // motif (shape 3): S (Always), a chain of 1..3 Ephemerals E.., M (Output, consumes the last E),
+    // Z (Output, consumes the last E and S), then random jobs hanging below M / Z: the shared
+    // Ephemeral becomes required late (when S changes) after M was already skipped
+    let motif_chain = 1 + r.below(3);
+    let motif_core = motif_chain + 3;
+    let n_defs = match shape {
+        0 => 1 + r.below(gp.max_jobs),
+        3 => motif_core + r.below(gp.max_jobs.saturating_sub(motif_core - 1).max(1)),
+        _ => 3 + r.below(gp.max_jobs.saturating_sub(2).max(1)),
+    };
     let layer_w = 2 + r.below(2);
     let mut defs = Vec::new();
     for i in 0..n_defs {
@@ -279,6 +292,17 @@ pub fn generate(seed: u64, gp: &GenParams) -> Scenario {
                     [0, 1, 0]
                 } else {
                     [0, 3, 5]
+                }
+            }
+            3 => {
+                if i == 0 {
+                    [1, 0, 0]
+                } else if i <= motif_chain {
+                    [0, 0, 1]
+                } else if i < motif_core {
+                    [0, 1, 0]
+                } else {
+                    [2, 4, 3]
                 }
             }
             _ => gp.kind_w,
@@ -336,6 +360,36 @@ pub fn generate(seed: u64, gp: &GenParams) -> Scenario {
                                 0
                             }
                         }
+                        3 => {
+                            let m = motif_chain + 1; // M
+                            let z = motif_chain + 2; // Z
+                            if (1..=motif_chain).contains(&down) {
+                                // the ephemeral chain E1 <- E2 <- ...
+                                if up + 1 == down && up >= 1 {
+                                    1000
+                                } else {
+                                    0
+                                }
+                            } else if down == m {
+                                if up == motif_chain {
+                                    1000
+                                } else {
+                                    0
+                                }
+                            } else if down == z {
+                                if up == motif_chain || up == 0 {
+                                    1000
+                                } else {
+                                    0
+                                }
+                            } else if up == m || up == z {
+                                450
+                            } else if up >= motif_core {
+                                dens
+                            } else {
+                                dens / 5
+                            }
+                        }
                         _ => dens,
                     };
                     if r.chance(p, 1000) {
@@ -344,7 +398,7 @@ pub fn generate(seed: u64, gp: &GenParams) -> Scenario {
                 }
             }
         } else {
-            let k = r.below(gp.edits_max + 1);
+            let k = if r.chance(1, 4) { r.below(2 * gp.edits_max + 2) } else { r.below(gp.edits_max + 1) };
             for _ in 0..k {
                 if let Some(e) = draw_edit(&mut r, gp, &cfg, &defs, &g) {
                     g.apply(&defs, &e);
@@ -457,4 +511,53 @@ pub fn fault_free(sc: &Scenario) -> bool {
 
 pub fn dummy() -> BTreeMap<usize, usize> {
     BTreeMap::new()
+}
+
+/// A seeded variant of a corpus scenario: graph, behaviours and edit script are kept (plus a few
+/// extra random edits), every schedule, seed and fault plan is re-drawn for the profile.
+pub fn corpus_variant(base: &Scenario, seed: u64, gp: &GenParams) -> Scenario {
+    let root = Rng::new(seed);
+    let mut r = root.fork("corpus");
+    let mut sc = base.clone();
+    sc.seed = seed;
+    sc.profile = format!("{}+corpus", gp.profile);
+    if gp.force_semantic_noise {
+        if sc.cfg.cmp == Cmp::Exact {
+            sc.cfg.cmp = Cmp::Semantic;
+        }
+        sc.cfg.noise = true;
+    } else if sc.cfg.cmp == Cmp::Semantic && r.chance(1, 3) {
+        sc.cfg.noise = !sc.cfg.noise;
+    } else if sc.cfg.cmp == Cmp::Exact && sc.cfg.names == Names::JobIds && r.chance(1, 4) {
+        sc.cfg.cmp = Cmp::Semantic;
+        sc.cfg.noise = r.chance(1, 2);
+    }
+    // sometimes repeat or drop trailing rounds
+    if sc.rounds.len() > 2 && r.chance(1, 5) {
+        let keep = 2 + r.below(sc.rounds.len() - 1);
+        sc.rounds.truncate(keep.min(sc.rounds.len()));
+    }
+    if r.chance(1, 4) {
+        let plan = EvalPlan::plain(Policy::Uniform, 2, 0, 0, 0);
+        sc.rounds.push(Round { edits: Vec::new(), plan });
+    }
+    let mut g = GraphState::default();
+    let n_rounds = sc.rounds.len();
+    for ri in 0..n_rounds {
+        for e in sc.rounds[ri].edits.clone().iter() {
+            g.apply(&sc.defs, e);
+        }
+        if ri > 0 && r.chance(1, 3) {
+            let k = 1 + r.below(2);
+            for _ in 0..k {
+                if let Some(e) = draw_edit(&mut r, gp, &sc.cfg, &sc.defs, &g) {
+                    g.apply(&sc.defs, &e);
+                    sc.rounds[ri].edits.push(e);
+                }
+            }
+        }
+        let present: Vec<usize> = g.present.iter().cloned().collect();
+        sc.rounds[ri].plan = draw_plan(&mut r, gp, &present, &sc.defs, ri);
+    }
+    sc
 }
